@@ -351,6 +351,10 @@ type SimplifyEv struct {
 	EpsN   int64    `json:"epsN"` // epsilon = epsN / epsD
 	EpsD   int64    `json:"epsD"`
 	Closed bool     `json:"closed"`
+	// the library is called on Path translated by Off (anywhere inside +-2^52, C13/C16 "at all
+	// magnitudes"); Path and Res are logged in base coordinates (the translation is undone exactly),
+	// the specification's exact rational acceptance conditions being translation invariant
+	Off [2]BigJ `json:"off"`
 
 	Out      string    `json:"out"`
 	Ok       bool      `json:"ok"`
@@ -401,6 +405,25 @@ func execSimplify(r *rand.Rand, e *SimplifyEv) {
 	eps := float64(e.EpsN) / float64(e.EpsD)
 	e.Ok = true
 	var res2 Path
+	off := Pt{bigJToInt(e.Off[0]), bigJToInt(e.Off[1])}
+	shifted := func(p Path, sg int64) Path {
+		q := make(Path, len(p))
+		for i, v := range p {
+			q[i] = Pt{v[0] + sg*off[0], v[1] + sg*off[1]}
+		}
+		return q
+	}
+	if off != (Pt{}) {
+		tp := shifted(e.Path, 1)
+		e.Res, e.Removed, e.Out = runSimplify(e.Api, tp, eps, e.Closed)
+		res2, _, _ = runSimplify(e.Api, tp, eps, e.Closed)
+		e.Det = equalPaths(Paths{e.Res}, Paths{res2})
+		e.ArgsSame = equalPaths(Paths{shifted(p0, 1)}, Paths{tp})
+		e.Res = shifted(e.Res, -1)
+		e.Vars = []SimpVar{}
+		e.Nontriv = len(e.Removed) > 0 && len(e.Res) > 2
+		return
+	}
 	e.Res, e.Removed, e.Out = runSimplify(e.Api, e.Path, eps, e.Closed)
 	res2, _, _ = runSimplify(e.Api, e.Path, eps, e.Closed)
 	e.Det = equalPaths(Paths{e.Res}, Paths{res2})
@@ -502,12 +525,41 @@ func simplifyPathGen(r *rand.Rand) Path {
 
 var simplifyApis = []string{"SimplifyPath64", "SimplifyPaths64", "SimplifyPathD", "SimplifyPathsD"}
 
-func driveSimplify(r *rand.Rand, w *writer, n int) {
+// bigOffset: a translation that keeps a path of extent ext inside +-2^52: anywhere, on a diagonal at a
+// power of two, or at the corner of the range
+func bigOffset(r *rand.Rand, ext int64) Pt {
+	lim := int64(1)<<52 - ext - 1
+	switch r.Intn(4) {
+	case 0:
+		sh := uint(30 + r.Intn(22))
+		sx, sy := int64(1-2*r.Intn(2)), int64(1-2*r.Intn(2))
+		return Pt{sx * (int64(1) << sh), sy * (int64(1) << sh)}
+	case 1:
+		return Pt{lim * int64(1-2*r.Intn(2)), lim * int64(1-2*r.Intn(2))}
+	case 2:
+		sh := uint(28 + r.Intn(24))
+		m := int64(1) << sh
+		return Pt{r.Int63n(2*m) - m, r.Int63n(2*m) - m}
+	}
+	return Pt{r.Int63n(2*lim) - lim, r.Int63n(2*lim) - lim}
+}
+
+// driveSimplify: offFrac of 4 events are run far from the origin (mode "C13S": all of them)
+func driveSimplify(r *rand.Rand, w *writer, n int, chk []string, offFrac int) {
 	epsList := [][2]int64{{0, 1}, {1, 2}, {1, 1}, {2, 1}, {7, 2}, {10, 1}, {1, 4}, {100, 1}}
 	for i := 0; i < n; i++ {
 		ep := epsList[r.Intn(len(epsList))]
-		e := &SimplifyEv{Ev: "Simplify", Chk: chkFor("C16"), Api: simplifyApis[r.Intn(4)],
+		e := &SimplifyEv{Ev: "Simplify", Chk: chkFor(chk...), Api: simplifyApis[r.Intn(4)],
 			Path: simplifyPathGen(r), EpsN: ep[0], EpsD: ep[1], Closed: r.Intn(2) == 0}
+		e.Off = [2]BigJ{bigJ64(0), bigJ64(0)}
+		if r.Intn(4) < offFrac {
+			ext := int64(1)
+			if b, ok := boundsOf(Paths{e.Path}); ok {
+				ext = max64(max64(abs64(b.x0), abs64(b.x1)), max64(abs64(b.y0), abs64(b.y1))) + 1
+			}
+			o := bigOffset(r, ext)
+			e.Off = [2]BigJ{bigJ64(o[0]), bigJ64(o[1])}
+		}
 		if len(e.Path) > 0 && abs64(e.Path[0][0]) > 1<<27 && r.Intn(2) == 0 {
 			e.EpsN, e.EpsD = 0, 1 // exact collinearity decisions at large magnitude
 		}
